@@ -220,6 +220,36 @@ where
     }
 }
 
+/// Gives an external simulator access to the crate-private constructors.
+#[cfg(getong_stateright_verif)]
+impl<State, Action> Path<State, Action> {
+    /// See [`Path::from_fingerprints`]. Fingerprints are raw `u64`s; a zero makes the call panic.
+    pub fn verif_from_fingerprints<M>(model: &M, fingerprints: &[u64]) -> Self
+    where
+        M: Model<State = State, Action = Action>,
+        M::State: Hash,
+    {
+        let fingerprints = fingerprints
+            .iter()
+            .map(|fp| Fingerprint::new(*fp).expect("zero fingerprint"))
+            .collect();
+        Self::from_fingerprints(model, fingerprints)
+    }
+
+    /// See [`Path::final_state`].
+    pub fn verif_final_state<M>(model: &M, fingerprints: &[u64]) -> Option<M::State>
+    where
+        M: Model<State = State, Action = Action>,
+        M::State: Hash,
+    {
+        let fingerprints = fingerprints
+            .iter()
+            .map(|fp| Fingerprint::new(*fp).expect("zero fingerprint"))
+            .collect();
+        Self::final_state(model, fingerprints)
+    }
+}
+
 #[cfg(test)]
 mod test {
     use super::*;
